@@ -63,6 +63,9 @@ package main
 //@   modifies nothing
 //@   ensures auth != nil ==> result != nil
 //@   callpre glyph.apiKeyMiddleware arg0 != nil && len(arg0) > 0 && forall(k, string, has(arg0, k) ==> k != "" && arg0[k])
+//@   callpre glyph.apiKeyMiddleware libcall(strings.EqualFold, auth.AuthType, "apikey")
+//@   callpre server.BasicAuthMiddleware !libcall(strings.EqualFold, auth.AuthType, "apikey")
+//@   callpre glyph.denyAllMiddleware libcall(strings.EqualFold, auth.AuthType, "apikey") == (arg0 == "apikey") || arg0 == auth.AuthType
 //@   callpre server.BasicAuthMiddleware arg0 != nil && len(arg0) == 1 && forall(k, string, has(arg0, k) ==> k != "" && arg0[k])
 
 //@ func routeMiddlewares
